@@ -24,8 +24,14 @@ Round 9: `while remaining > eps` needs a shortcut that takes everything up to ep
 (`free >= 0`) REFUTED; recursion_stays_in_wbs: REFUTED only for a truly unguarded call or a positively widened guard.
 Round 10: the divisor may be an alias of the loop's capacity variable set after the loop; the future-end test may sit in the
 filter of next()/any(); nothing in the reach deep-copies user values; memo-idiom subscripts (`if k not in D: D[k] = ..`).
+Round 11: the wait-for nodes may be instances of a two-field record class (NamedTuple / dataclass) whose method is the successor
+function; the future-end test on day-truncated values (`t.end.date() > now.date()`) is refuted; the isolation check must test the
+dates of a variable that ranges over ALL predecessors (one picked by next() is refuted); `not x.end is None` filters; extrema /
+next() over the dated children themselves (`[t for t in task.children if t.end is not None]`, key=) are non-empty like their
+dates; one clone clause is decided here: the element test of the relation rebuild must send a task with wbs None to the
+'itself' side (lookup by id = KeyError), read from the shared clone analysis.
 Not decided: stack depth on legitimately deep acyclic inputs; exceptions raised inside user supplied IResource /
-calendar callables; clone()'s dictionary lookups (assumption table: keys are drawn from the collection that built the map).
+calendar callables; clone()'s other dictionary lookups (assumption table: keys are drawn from the collection that built the map).
 """
 from __future__ import annotations
 
@@ -222,6 +228,16 @@ def check(ctx):
             o.site(calcs[0], calcs[0].node, f"no deepcopy in the {len(reach)} functions calc reaches")
     ctx.guarded(o, no_deepcopy)
 
+    o = ctx.ob('clone_never_looks_up_a_detached_task', 'R6b',
+               "calc clones the WBS: in the relation rebuild of WBS.__clone_tasks the choice between 'the linked task itself' and "
+               "'its copy, looked up by id in the clone map' sends a linked task that belongs to no WBS (wbs is None) to the 'itself' "
+               "side - looked up it ends calc in KeyError (shared clone analysis with C10; every other clause stays C10's)", floor=2)
+
+    def clone_lookup(o):
+        from .clone_common import clone_provenance
+        clone_provenance(ctx, _DetachedLookup(o), ('receivers', 'relations'))
+    ctx.guarded(o, clone_lookup)
+
     o = ctx.ob('next_has_a_default', 'R6b',
                "every next() on an iterator that can run dry (a filtered / finite generator) passes a default and every "
                "functools.reduce() over a possibly empty sequence an initial value: a bare next() ends in StopIteration, a bare "
@@ -234,6 +250,58 @@ def check(ctx):
 
 
 # ======================================================================================================================
+class _DetachedLookup:
+    """view of an obligation for the shared clone analysis that keeps one finding only: the element test of a rebuilt relation
+    (`x if <test> else map[x.id]`) evaluated for a task with wbs None takes the lookup branch.  Everything else the clone rule
+    says (refuted or undecided) is C10's / C06's matter and is recorded as an evaluated site here."""
+
+    def __init__(self, o):
+        self._o = o
+
+    def __getattr__(self, name):
+        return getattr(self._o, name)
+
+    @staticmethod
+    def _for_detached(e):
+        """truth value of a test on the linked task when its wbs is None (True / False / None = not determined)"""
+        if isinstance(e, ast.UnaryOp) and isinstance(e.op, ast.Not):
+            v = _DetachedLookup._for_detached(e.operand)
+            return None if v is None else not v
+        if isinstance(e, ast.BoolOp):
+            vs = [_DetachedLookup._for_detached(v) for v in e.values]
+            if isinstance(e.op, ast.And):
+                return False if any(v is False for v in vs) else (None if any(v is None for v in vs) else True)
+            return True if any(v is True for v in vs) else (None if any(v is None for v in vs) else False)
+        if isinstance(e, ast.Compare) and len(e.ops) == 1 and isinstance(e.left, ast.Attribute) and e.left.attr == 'wbs':
+            op, r = e.ops[0], e.comparators[0]
+            if isinstance(r, ast.Constant) and r.value is None:
+                return isinstance(op, (ast.Is, ast.Eq)) if isinstance(op, (ast.Is, ast.Eq, ast.IsNot, ast.NotEq)) else None
+            if isinstance(r, ast.Name) and r.id == 'self':
+                return isinstance(op, (ast.IsNot, ast.NotEq)) if isinstance(op, (ast.Is, ast.Eq, ast.IsNot, ast.NotEq)) else None
+        return None
+
+    def refute(self, func, node, construct, msg):
+        if "decides between 'the task itself' and 'its copy'" in msg and isinstance(construct, ast.AST):
+            # `construct` is the element test in expanded form (a helper such as foreign(x) resolved); the branch order is read from
+            # the element `x if <test> else map[x.id]` / `map[x.id] if <test> else x` of the statement
+            elts = [x for x in (ast.walk(node) if isinstance(node, ast.AST) else []) if isinstance(x, ast.IfExp) and
+                    isinstance(x.body, ast.Name) != isinstance(x.orelse, ast.Name)]
+            if elts and len({isinstance(x.body, ast.Name) for x in elts}) == 1:
+                    x = elts[0]
+                    v = self._for_detached(construct)
+                    own_first = isinstance(x.body, ast.Name)
+                    if v is not None and v != own_first:
+                        self._o.refute(func, node, construct,
+                                       f"`{src(x)[:90]}`: for a linked task that belongs to no WBS (wbs is None) the test `{src(construct)[:60]}` "
+                                       f"chooses the lookup by id in the clone map, where it was never filed: WBS.clone(), and with it calc, "
+                                       f"ends in KeyError instead of a schedule or a RuntimeError diagnosis")
+                        return
+        self._o.site(func, node, "clone clause judged by C10 / C06")
+
+    def undecided(self, func, node, construct, msg):
+        self._o.site(func, node, "clone clause judged by C10 / C06")
+
+
 def _mentions(f, name):
     return any((isinstance(n, ast.Name) and n.id == name) or (isinstance(n, ast.Attribute) and unmangle(n.attr) == name)
                for n in walk_no_nested(f.node))
@@ -1200,7 +1268,8 @@ def extrema(ctx, o, core):
                     if comp is not None:
                         seq = comp
                 elif len(rd) == 1 and rd[0].kind == 'assign' and rd[0].value is not None and facts.comp_parts(rd[0].value) and \
-                        len(fl.defs_of(seq.id)) == 1 and not PassShape(ctx, S)._mutated_in_place(seq.id):
+                        not PassShape(ctx, S)._mutated_in_place(seq.id) and \
+                        (len(fl.defs_of(seq.id)) == 1 or _children_dated_comp(PassShape(ctx, S), rd[0].value, cn)):
                     seq = rd[0].value          # a comprehension hoisted into a local that is never changed afterwards
             if isinstance(seq, ast.Name):
                 # every reaching definition non-empty, or an emptiness fallback dominates
@@ -1240,6 +1309,10 @@ def extrema(ctx, o, core):
                 reg = ps.region(n)
                 m = match(f"{tgt.id}.$a", elt) if isinstance(tgt, ast.Name) else None
                 it_x = ps.ex.expand(it, cn) if cn is not None else it
+                if reg['leaf'] is False and _children_dated_comp(ps, seq, cn):
+                    # the dated children themselves (`[t for t in task.children if t.end is not None]`, compared through key=)
+                    o.site(f, n, "dated children: summary has >= 1 child, every scheduled child is dated")
+                    continue
                 if match(f"{ps.task}.children", sched.strip_seq_copy(it_x)) and reg['leaf'] is False and m and m['a'] in ('start', 'end'):
                     # children non-empty (not a leaf) and all dated (all_dated_on_exit) after the children loop
                     o.site(f, n, f"children {m['a']}s: summary has >= 1 child, every scheduled child is dated")
@@ -1251,6 +1324,21 @@ def extrema(ctx, o, core):
                     o.undecided(f, n, n, f"{n.func.id}() over `{src(core_it)[:60]}`: cannot tell whether the sequence can be empty")
                     continue
             o.refute(f, n, n, f"{n.func.id}({src(seq)[:50]}) may be applied to an empty sequence (ValueError)")
+
+
+def _children_dated_comp(ps, seq, cn):
+    """seq is `[t for t in <task>.children if t.start is not None]` (the children themselves, filtered only by `is not None` tests of
+    start / end): after the children loop every child is dated, so the list is as long as the children"""
+    parts = facts.comp_parts(seq)
+    if not parts:
+        return False
+    elt, tgt, it, ifs = parts
+    if not (isinstance(tgt, ast.Name) and isinstance(elt, ast.Name) and elt.id == tgt.id and ifs):
+        return False
+    it_x = ps.ex.expand(it, cn) if cn is not None else it
+    if not match(f"{ps.task}.children", sched.strip_seq_copy(it_x)):
+        return False
+    return all(match(f"{tgt.id}.start is not None", c) or match(f"{tgt.id}.end is not None", c) for c in ifs)
 
 
 def _has_literal_element(seq):
@@ -2054,6 +2142,19 @@ def next_calls(ctx, o, core):
                                                                isinstance(e_.elts[idx].func, ast.Name) and e_.elts[idx].func.id == 'iter'
                                                                for e_ in entries):
                             it = entries[0].elts[idx]
+            S_ = next((s_ for s_ in BOTH if f.qual == s_['pass_']), None)
+            parts_ = facts.comp_parts(it) if isinstance(it, (ast.GeneratorExp, ast.ListComp)) else None
+            if S_ is not None and parts_ and isinstance(parts_[1], ast.Name) and parts_[3]:
+                # a generator over the children of a summary filtered only by `is not None` tests of their dates: after the children
+                # loop every child is dated and a summary has at least one child (the proof extrema_of_nonempty uses)
+                ps_ = PassShape(ctx, S_)
+                cn_ = fl.node_of_expr(n)
+                it_x = ps_.ex.expand(parts_[2], cn_) if cn_ is not None else parts_[2]
+                tg_ = parts_[1].id
+                if match(f"{ps_.task}.children", sched.strip_seq_copy(it_x)) and ps_.region(n)['leaf'] is False and \
+                        all(match(f"{tg_}.start is not None", c_) or match(f"{tg_}.end is not None", c_) for c_ in parts_[3]):
+                    o.site(f, n, "next() over the dated children of a summary: >= 1 child, every scheduled child is dated")
+                    continue
             if isinstance(it, (ast.GeneratorExp, ast.ListComp)) or \
                     (isinstance(it, ast.Call) and isinstance(it.func, ast.Name) and it.func.id in ('filter', 'range', 'map', 'zip', 'reversed', 'iter')):
                 o.refute(f, n, n, f"`{src(n)[:70]}` has no default: when the generator runs dry (nothing matches within the horizon) it raises "
